@@ -278,26 +278,20 @@ var curPlan atomic.Pointer[plan]
 const tripQuery = "trip the breaker"
 
 func (p *plan) clearFailed(t int) {
-	if p.free {
-		p.mu.Lock()
-		defer p.mu.Unlock()
-	}
+	p.mu.Lock()
+	defer p.mu.Unlock()
 	p.failed[t] = false
 }
 
 func (p *plan) hasFailed(t int) bool {
-	if p.free {
-		p.mu.Lock()
-		defer p.mu.Unlock()
-	}
+	p.mu.Lock()
+	defer p.mu.Unlock()
 	return p.failed[t]
 }
 
 func (p *plan) lastOf(t int) []string {
-	if p.free {
-		p.mu.Lock()
-		defer p.mu.Unlock()
-	}
+	p.mu.Lock()
+	defer p.mu.Unlock()
 	return p.lastVal[t]
 }
 
@@ -320,10 +314,10 @@ func (p *plan) call(conn int, kind string, k int, role error) (string, error) {
 }
 
 func (p *plan) callAs(tid, conn int, kind string, k int, role error) (string, error) {
-	if p.free {
-		p.mu.Lock()
-		defer p.mu.Unlock()
-	}
+	// always locked: a tree that begins with the caller's context lets database/sql roll back from a
+	// goroutine of its own when that context ends, concurrently with the transaction's goroutine
+	p.mu.Lock()
+	defer p.mu.Unlock()
 	rep := p.next()
 	val := ""
 	if i := strings.IndexByte(rep, ':'); i >= 0 {
@@ -781,10 +775,6 @@ func (r *runner) threadMain(t int) {
 func (r *runner) finish(t int) {
 	th := r.threads[t]
 	out := &th.out
-	if r.c.Free {
-		r.p.mu.Lock()
-		defer r.p.mu.Unlock()
-	}
 	out.InUse = r.inUse()
 	if th.sess != nil && !r.c.Free {
 		// the body leaked its session: a statement through it after the call has ended must not reach
@@ -799,6 +789,8 @@ func (r *runner) finish(t int) {
 			out.Late = "other: " + lerr.Error()
 		}
 	}
+	r.p.mu.Lock()
+	defer r.p.mu.Unlock()
 	// the breaker's verdict on the call is asked for (a) with the very error that is returned and
 	// (b) once the transaction is over: after the last driver call made on its behalf
 	n, args, pos := r.accCalls(th.spec.Conn, t)
